@@ -116,12 +116,30 @@ func build(path []event) (*wld, string, string) {
 	}
 	for _, e := range path {
 		w.apply(e)
+		if os.Getenv("VERIF_DEBUG") != "" {
+			fmt.Fprintf(os.Stderr, "after %v:\n", e)
+			for _, m := range w.SortedNet() {
+				fmt.Fprintf(os.Stderr, "    in flight: %s\n", m.Key()[:60])
+			}
+			for _, n := range w.Nodes {
+				fmt.Fprintf(os.Stderr, "    n%d applied %v\n", n.ID, w.appliedOf(n.ID))
+			}
+		}
 		if len(w.Violations) > 0 {
 			v := w.Violations[0]
 			return w, v.Key, fmt.Sprintf("after %v: %s", e, v.Desc)
 		}
 	}
 	return w, "", ""
+}
+
+func (w *wld) appliedOf(id uint64) string {
+	for _, n := range w.Nodes {
+		if n.ID == id && n.App != nil {
+			return n.App.Digest()
+		}
+	}
+	return "-"
 }
 
 func (w *wld) find(key string) *sim.Msg {
@@ -189,6 +207,18 @@ func (w *wld) apply(e event) {
 				break
 			}
 		}
+	case "burst": // directed histories only: the in-flight messages to e.Node whose keys contain the comma-separated patterns of
+		// e.Msg, in that order, handed over back to back with the target's ready loop being the slow one
+		var ms []*sim.Msg
+		for _, pat := range strings.Split(e.Msg, ",") {
+			for _, m := range w.SortedNet() {
+				if m.To == e.Node && strings.Contains(m.Key(), pat) {
+					ms = append(ms, m)
+					break
+				}
+			}
+		}
+		w.DeliverBurst(ms)
 	case "cut":
 		w.used.cuts++
 		w.Cut[[2]uint64{e.Node, e.Peer}] = true
@@ -388,6 +418,14 @@ func directed() map[string][]event {
 		h[fmt.Sprintf("lagging-follower-crashes-installing-snapshot-after-flush-%v", after)] = append(append([]event{}, lag...),
 			event{Kind: "deliver1", Msg: "3>1 MsgHeartbeatResp"}, event{Kind: "crashat", Node: 3, After: after}, event{Kind: "deliver1", Msg: "1>3 MsgSnap"}, event{Kind: "drain"})
 	}
+	// the snapshot message is slow; meanwhile the leader (whose transport has reported the snapshot as sent) probes with
+	// the entries behind it; both reach the follower together while its ready loop is busy: one Ready carries the snapshot
+	// AND the committed entries that follow it
+	h["lagging-follower-snapshot-and-following-append-in-one-ready"] = append(append([]event{}, lag...),
+		event{Kind: "deliver1", Msg: "3>1 MsgHeartbeatResp"},
+		event{Kind: "propose", Node: 1, Arg: 3}, event{Kind: "deliver1", Msg: "1>2 MsgApp"}, event{Kind: "deliver1", Msg: "2>1 MsgAppResp"},
+		event{Kind: "tick", Node: 1}, event{Kind: "deliver1", Msg: "1>3 MsgHeartbeat"}, event{Kind: "deliver1", Msg: "3>1 MsgHeartbeatResp"},
+		event{Kind: "burst", Node: 3, Msg: "MsgSnap,MsgApp"}, event{Kind: "drain"})
 	// the leader changes while the follower still lags behind the compacted log
 	h["lagging-follower-then-leader-change"] = append(append([]event{}, lag...),
 		event{Kind: "crash", Node: 1}, event{Kind: "timeout", Node: 2}, event{Kind: "drain"}, event{Kind: "propose", Node: 2, Arg: 3}, event{Kind: "drain"})
@@ -442,7 +480,7 @@ func main() {
 		}
 		fmt.Println(w.Canon())
 		w.Close()
-		if k != "" {
+		if k != "" && ev.Counts(k) {
 			fmt.Printf("VIOLATION property=%s replay=%s\n  %s: %s\n", ev.As("C05"), os.Args[2], k, d)
 			os.Exit(1)
 		}
@@ -502,7 +540,11 @@ func main() {
 				}
 			}
 		}
+		directedOnly := os.Getenv("VERIF_AS") != "" && os.Getenv("VERIF_PART_MODE") == "directed"
 		for _, ph := range phases(thorough) {
+			if directedOnly {
+				break // borrowed phase "directed": only the directed histories (shard 0 ran them above)
+			}
 			ph := ph
 			nodes, limits = ph.nodes, ph.lim
 			probeEvery := 0
@@ -591,7 +633,9 @@ func main() {
 	}
 	// "after a restart it resumes from a term and log no older than what it had made durable": what the replica reads
 	// back is the log store's answer - C06's single-group phase counts here for every answer raft would get wrong
-	run.RunPart("log-store-C06", os.Getenv("VERIF_BIN_C06"), c06Keys, "VERIF_PART_PHASES=^single-group$")
+	if os.Getenv("VERIF_AS") == "" {
+		run.RunPart("log-store-C06", os.Getenv("VERIF_BIN_C06"), c06Keys, "VERIF_PART_PHASES=^single-group$")
+	}
 	run.Finish(ev.Coverage{
 		"states":                        total.States,
 		"transitions":                   total.Transitions,
